@@ -14,6 +14,11 @@ compile.go / eval.go:
 * assignment: right-hand side first, then the targets left to right, for each
   subscript/attribute target its own sub-expressions left to right, then the store;
 * `a[i] op= v`: `a`, `i`, load `a[i]`, `v`, in-place op, store `a[i]` — `a`, `i` once.
+* `lambda` / `def`: the positional default expressions left to right, then the keyword-only
+  defaults in order, at definition time; the body only when the function is called;
+* `f(a…, k=v…, *s, **d)`: callee, positionals, keyword values, `*` expression, `**` expression;
+* `(b…, *t, a…) = v`: `v` unpacked once, then the targets left to right;
+* `a[lo:hi:st]`: `a`, `lo`, `hi`, `st`; `del t1, t2`: targets left to right, sub-expressions of each once.
 
 Every primitive operation on values (operators, truth test, item/attribute
 access, calls, name lookup, …) is a field of the abstract structure `Prims`: a
@@ -39,6 +44,21 @@ inductive Const
   | int (i : Int) | str (s : String) | none | true | false
 deriving DecidableEq, Repr, Inhabited
 
+/-- the parameter list of a `lambda` / `def` without the default expressions:
+`pos` positional parameters, `*vararg`, keyword-only parameters, `**kwarg` -/
+structure Sig where
+  pos : List String := []
+  vararg : Option String := none
+  kwonly : List String := []
+  kwarg : Option String := none
+deriving DecidableEq, Repr, Inhabited
+
+def Sig.empty : Sig := {}
+
+/-- every parameter name (the local variables of the function's code object) -/
+def Sig.names (sg : Sig) : List String :=
+  sg.pos ++ sg.vararg.toList ++ sg.kwonly ++ sg.kwarg.toList
+
 mutual
 /-- expressions.  `atom i c` is the probe `ev(i, c)`: a call of the global `ev`
 with the literal position `i` and the literal payload `c`. -/
@@ -59,7 +79,20 @@ inductive Expr
   | list (es : Exprs)
   | set (es : Exprs)
   | dict (kvs : KVs)
-  | lambda0 (body : Expr)                               -- `lambda: body` (closure creation only)
+  /-- `lambda <sg with defaults>: body`.  `ds` = the default expressions of the LAST
+  `ds.length` positional parameters, `kds` = the keyword-only parameters that have a
+  default, in source order, with their default expressions.  Evaluating the lambda
+  evaluates `ds` left to right, then `kds` in order (language reference 6.13 / 8.6:
+  "default parameter values are evaluated from left to right when the function
+  definition is executed"); the body is evaluated only when the function is called. -/
+  | lambda (sg : Sig) (ds : Exprs) (kds : KWs) (body : Expr)
+  /-- the slice object `lo:hi:st` of a 3-bound subscription `a[lo:hi:st]`
+  (= `subscript a (slice3 lo hi st)`); an omitted bound is the literal `None` -/
+  | slice3 (lo hi st : Expr)
+  /-- general call `f(a1, …, k1=v1, …, *star, **dstar)`.  Python 3.4 evaluates the callee,
+  the positional arguments, the keyword argument values (each left to right), then the
+  `*` expression, then the `**` expression – wherever `*star` stands in the text. -/
+  | callx (f : Expr) (args : Exprs) (kws : KWs) (star dstar : OptE)
 inductive Exprs
   | nil | cons (e : Expr) (es : Exprs)
 inductive CmpTail
@@ -67,7 +100,15 @@ inductive CmpTail
   | more (op : CmpOp) (e : Expr) (rest : CmpTail)
 inductive KVs
   | nil | cons (k v : Expr) (rest : KVs)
+/-- `name = expr` pairs: keyword arguments of a call, keyword-only defaults of a function -/
+inductive KWs
+  | nil | cons (name : String) (v : Expr) (rest : KWs)
+inductive OptE
+  | none | some (e : Expr)
 end
+
+/-- `lambda: body` -/
+@[reducible] def Expr.lambda0 (body : Expr) : Expr := .lambda Sig.empty .nil .nil body
 
 instance : Inhabited Expr := ⟨.const .none⟩
 
@@ -78,6 +119,22 @@ def Exprs.length : Exprs → Nat
 def KVs.length : KVs → Nat
   | .nil => 0
   | .cons _ _ r => r.length + 1
+
+def KWs.length : KWs → Nat
+  | .nil => 0
+  | .cons _ _ r => r.length + 1
+
+def KWs.ofList : List (String × Expr) → KWs
+  | [] => .nil
+  | (n, e) :: r => .cons n e (KWs.ofList r)
+
+def KWs.toList : KWs → List (String × Expr)
+  | .nil => []
+  | .cons n e r => (n, e) :: r.toList
+
+def OptE.isSome : OptE → Bool
+  | .none => false
+  | .some _ => true
 
 def Exprs.ofList : List Expr → Exprs
   | [] => .nil
@@ -94,8 +151,21 @@ inductive Target
   | subscr (a i : Expr)
   | attr (a : Expr) (n : String)
   | tuple (ts : Targets)
+  /-- `(b1, …, *t, a1, …)`: starred target `t` between `before` and `after` -/
+  | star (before : Targets) (t : Target) (after : Targets)
 inductive Targets
   | nil | cons (t : Target) (ts : Targets)
+end
+
+mutual
+/-- targets of `del` -/
+inductive DelTarget
+  | name (n : String)
+  | subscr (a i : Expr)
+  | attr (a : Expr) (n : String)
+  | tuple (ts : DelTargets)                            -- `del (t1, t2)`
+inductive DelTargets
+  | nil | cons (t : DelTarget) (ts : DelTargets)
 end
 
 def Targets.length : Targets → Nat
@@ -116,6 +186,9 @@ inductive Stmt
   | assign (t : Target) (more : Targets) (value : Expr)   -- `t = m1 = m2 = … = value`
   | aug (t : AugTarget) (op : BinOp) (value : Expr)
   | expr (e : Expr)
+  | del (ts : DelTargets)                                 -- `del t1, t2, …`
+  /-- `def name(<sg with defaults>): return body` -/
+  | funcdef (name : String) (sg : Sig) (ds : Exprs) (kds : KWs) (body : Expr)
 
 /-! ## The state + exception monad over an abstract world -/
 
@@ -155,11 +228,27 @@ structure Prims (V X W : Type) where
   mkList : List V → M X W V
   mkSet : List V → M X W V
   mkSlice : V → V → M X W V
+  mkSlice3 : V → V → V → M X W V
   newDict : M X W V
   dictSet : V → V → V → M X W Unit          -- dict, key, value (insertion while building a display)
-  codeObj : Expr → V                        -- the code object of `lambda: body`
-  mkFunction : V → V → M X W V              -- code, qualified name ↦ function object
+  /-- the code object of `lambda sg: body` (name "<lambda>") / `def name(sg): return body` -/
+  codeObj : String → Sig → Expr → V
+  /-- code, qualified name, values of the positional defaults, (name, value) of the
+  keyword-only defaults ↦ function object -/
+  mkFunction : V → V → List V → List (V × V) → M X W V
   unpack : Nat → V → M X W (List V)          -- iterate exactly n items or raise
+  /-- `unpackEx b a v`: iterate `v`; the first `b` items, a list of the middle ones, the last `a` items -/
+  unpackEx : Nat → Nat → V → M X W (List V)
+  /-- callee, positional values, (name, value) of the keyword arguments, value of the `*`
+  expression, value of the `**` expression -/
+  callEx : V → List V → List (V × V) → Option V → Option V → M X W V
+  delName : String → M X W Unit
+  delitem : V → V → M X W Unit               -- container, key
+  delattr : V → String → M X W Unit
+  /-- name lookup inside a function body: a parameter (LOAD_FAST) … -/
+  loadFast : String → M X W V
+  /-- … and any other name (LOAD_GLOBAL) -/
+  loadGlobal : String → M X W V
 
 section
 variable {V X W : Type} (P : Prims V X W)
@@ -192,7 +281,15 @@ def evalE : Expr → M X W V
   | .list es => M.bind (evalEs es) fun vs => P.mkList vs
   | .set es => M.bind (evalEs es) fun vs => P.mkSet vs
   | .dict kvs => M.bind P.newDict fun d => evalKVs d kvs
-  | .lambda0 body => P.mkFunction (P.codeObj body) (P.const (.str "<lambda>"))
+  | .lambda sg ds kds body =>
+      M.bind (evalEs ds) fun dvs => M.bind (evalKWs kds) fun kvs =>
+      P.mkFunction (P.codeObj "<lambda>" sg body) (P.const (.str "<lambda>")) dvs kvs
+  | .slice3 lo hi st =>
+      M.bind (evalE lo) fun vl => M.bind (evalE hi) fun vh => M.bind (evalE st) fun vs =>
+      P.mkSlice3 vl vh vs
+  | .callx f args kws star dstar =>
+      M.bind (evalE f) fun vf => M.bind (evalEs args) fun vs => M.bind (evalKWs kws) fun ks =>
+      M.bind (evalOpt star) fun sv => M.bind (evalOpt dstar) fun dv => P.callEx vf vs ks sv dv
 /-- expression lists, left to right -/
 def evalEs : Exprs → M X W (List V)
   | .nil => M.pure []
@@ -217,6 +314,15 @@ def evalKVs (d : V) : KVs → M X W V
   | .cons k v rest =>
       M.bind (evalE v) fun vv => M.bind (evalE k) fun vk => M.bind (P.dictSet d vk vv) fun _ =>
         evalKVs d rest
+/-- `n1=e1, n2=e2, …` left to right; the names are the string constants the call /
+function object receives -/
+def evalKWs : KWs → M X W (List (V × V))
+  | .nil => M.pure []
+  | .cons n e rest =>
+      M.bind (evalE e) fun v => M.bind (evalKWs rest) fun r => M.pure ((P.const (.str n), v) :: r)
+def evalOpt : OptE → M X W (Option V)
+  | .none => M.pure none
+  | .some e => M.bind (evalE e) fun v => M.pure (some v)
 end
 
 mutual
@@ -226,6 +332,13 @@ def assignTo : Target → V → M X W Unit
   | .subscr a i, v => M.bind (evalE P a) fun va => M.bind (evalE P i) fun vi => P.setitem va vi v
   | .attr a n, v => M.bind (evalE P a) fun va => P.setattr va n v
   | .tuple ts, v => M.bind (P.unpack ts.length v) fun vs => assignAll ts vs
+  | .star b t a, v =>
+      -- the items before the star, the list of the middle items, the items after it
+      M.bind (P.unpackEx b.length a.length v) fun vs =>
+      M.bind (assignAll b (vs.take b.length)) fun _ =>
+      match vs.drop b.length with
+      | [] => M.pure ()                       -- unreachable: `unpackEx` yields b+1+a items
+      | m :: rest => M.bind (assignTo t m) fun _ => assignAll a rest
 /-- bind the items `vs` to the targets `ts`, left to right -/
 def assignAll : Targets → List V → M X W Unit
   | .nil, _ => M.pure ()
@@ -237,6 +350,19 @@ end
 def assignEach (v : V) : Targets → M X W Unit
   | .nil => M.pure ()
   | .cons t ts => M.bind (assignTo P t v) fun _ => assignEach v ts
+
+mutual
+/-- `del t`: the sub-expressions of the target left to right, then the deletion -/
+def delTo : DelTarget → M X W Unit
+  | .name n => P.delName n
+  | .subscr a i => M.bind (evalE P a) fun va => M.bind (evalE P i) fun vi => P.delitem va vi
+  | .attr a n => M.bind (evalE P a) fun va => P.delattr va n
+  | .tuple ts => delAll ts
+/-- `del t1, t2, …`: left to right -/
+def delAll : DelTargets → M X W Unit
+  | .nil => M.pure ()
+  | .cons t ts => M.bind (delTo t) fun _ => delAll ts
+end
 
 def execS : Stmt → M X W Unit
   | .assign t more value =>
@@ -252,6 +378,16 @@ def execS : Stmt → M X W Unit
       M.bind (evalE P a) fun va => M.bind (P.getattr va n) fun v0 =>
       M.bind (evalE P value) fun v1 => M.bind (P.inplace op v0 v1) fun r => P.setattr va n r
   | .expr e => M.bind (evalE P e) fun _ => M.pure ()
+  | .del ts => delAll P ts
+  | .funcdef name sg ds kds body =>
+      M.bind (evalEs P ds) fun dvs => M.bind (evalKWs P kds) fun kvs =>
+      M.bind (P.mkFunction (P.codeObj name sg body) (P.const (.str name)) dvs kvs) fun fn =>
+      P.storeName name fn
+
+/-- the primitives as seen from inside a function whose parameters are `ps`: a name is
+a local (parameter) or a global; nothing else changes -/
+def Prims.inFunction (ps : List String) : Prims V X W :=
+  { P with loadName := fun n => if ps.contains n then P.loadFast n else P.loadGlobal n }
 
 def execProg : List Stmt → M X W Unit
   | [] => M.pure ()
